@@ -386,6 +386,12 @@ def run(ctx):
     # targets drawn from hash-ordered node sets: the node_targets wrapper visits every cached node and forwards every target
     from checks import helpers_ob
     helpers_ob.helper_obligations(ctx, 'C09')
+    # premise: whether a witness is fresh must not depend on the order in which the trunk's nodes arrived (C06's append obligations
+    # and history search, under C09 names): a stale next-constant makes verdicts depend on premise order and multiplicity
+    from checks import c06 as _c06
+    _c06.append_obligations(ctx, 'C09.fresh', only=('fresh-constant', 'fresh-world'))
+    ctx.replayers['C09.fresh.'] = _c06.replay_history
+    _c06.bounded_histories(ctx, 'C09.fresh', depth=3)
     bounded_search_independence(ctx)
     ctx.replayers['C09.'] = lambda r: dict(reproduced=None, detail='see counterexample / meta')
 
